@@ -8,16 +8,18 @@ import (
 )
 
 var Harnesses = map[string]func(){
-	"verifh/hlex.Total":            hlex.Total,
-	"verifh/hlex.StepTotal":        hlex.StepTotal,
-	"verifh/hlex.StepRef":          hlex.StepRef,
-	"verifh/hparse.QueryRef":       hparse.QueryRef,
-	"verifh/hparse.QueryTotal":     hparse.QueryTotal,
-	"verifh/hparse.QueryLimit":     hparse.QueryLimit,
-	"verifh/hparse.SchemaRef":      hparse.SchemaRef,
-	"verifh/hparse.SchemaTotal":    hparse.SchemaTotal,
-	"verifh/hparse.SchemaLimit":    hparse.SchemaLimit,
-	"verifh/hval.Smoke":            hval.Smoke,
-	"verifh/hval.ValidateRef":      hval.ValidateRef,
-	"verifh/hval.SplitGapSelfTest": hval.SplitGapSelfTest,
+	"verifh/hlex.Total":               hlex.Total,
+	"verifh/hlex.StepTotal":           hlex.StepTotal,
+	"verifh/hlex.StepRef":             hlex.StepRef,
+	"verifh/hparse.QueryRef":          hparse.QueryRef,
+	"verifh/hparse.QueryTotal":        hparse.QueryTotal,
+	"verifh/hparse.QueryLimit":        hparse.QueryLimit,
+	"verifh/hparse.SchemaRef":         hparse.SchemaRef,
+	"verifh/hparse.SchemaTotal":       hparse.SchemaTotal,
+	"verifh/hparse.SchemaLimit":       hparse.SchemaLimit,
+	"verifh/hval.Smoke":               hval.Smoke,
+	"verifh/hval.ValidateRef":         hval.ValidateRef,
+	"verifh/hval.SchemaReadOnly":      hval.SchemaReadOnly,
+	"verifh/hval.SplitGapSelfTest":    hval.SplitGapSelfTest,
+	"verifh/hval.FrozenWriteSelfTest": hval.FrozenWriteSelfTest,
 }
